@@ -11,6 +11,13 @@ def check_c13(ctx):
         r = core.run_tlc(ctx, "CookMeta", f"CookMeta_{conv}.cfg", workers=8, strata=((r'pred\\":\{\\"t\\":\\"([a-z]+)', 3000) if ctx.tier == "quick" else None))
         ctx.model_violation(r)
         recs += r.replay
+    # every short string over small alphabets, read by the character-level transcription of the readers (spec/CookStdValue.tla)
+    n = 4 if ctx.tier == "quick" else 5
+    for kind in ("time", "timeE", "locale", "servings", "tags", "nameurl"):
+        r = core.run_tlc(ctx, "MC_StdValue", f"MC_StdValue_{kind}{n + 2 if kind == 'nameurl' else n}.cfg", workers=8, timeout=3000)
+        ctx.model_violation(r)
+        recs += r.replay
+    ctx.extra["strings_enumerated_by_CookStdValue"] = sum(1 for x in recs if x.get("style") == "yamlstring" and len(x.get("val", [])) == 1)
     none = dict(t="none")
     # a converter whose minutes cannot be found under an English key while `m` is the metre: number-unit durations are all
     # out of form there (lengths included); plain minutes and the compact form do not need units
@@ -58,6 +65,13 @@ def check_c13(ctx):
 def replay_c13(ctx, case):
     core.build_harness()
     c = case["case"]
+    # every short string over small alphabets, read by the character-level transcription of the readers (spec/CookStdValue.tla)
+    n = 4 if ctx.tier == "quick" else 5
+    for kind in ("time", "timeE", "locale", "servings", "tags", "nameurl"):
+        r = core.run_tlc(ctx, "MC_StdValue", f"MC_StdValue_{kind}{n + 2 if kind == 'nameurl' else n}.cfg", workers=8, timeout=3000)
+        ctx.model_violation(r)
+        recs += r.replay
+    ctx.extra["strings_enumerated_by_CookStdValue"] = sum(1 for x in recs if x.get("style") == "yamlstring" and len(x.get("val", [])) == 1)
     none = dict(t="none")
     # a converter whose minutes cannot be found under an English key while `m` is the metre: number-unit durations are all
     # out of form there (lengths included); plain minutes and the compact form do not need units
